@@ -95,6 +95,7 @@ func c07IdentifierOrder(c *Ctx) {
 		{TripId: sp("T"), RouteId: sp("R"), DirectionId: &u1},
 		{TripId: sp("T"), RouteId: sp("R"), StartTime: sp("10:00:00")},
 		{TripId: sp("T"), RouteId: sp("R"), StartTime: sp("09:00:00")},
+		{TripId: sp("T"), RouteId: sp("R"), StartTime: sp("00:00:00")},
 		{TripId: sp("T"), RouteId: sp("R"), StartDate: sp("20240102")},
 		{TripId: sp("T"), RouteId: sp("R"), StartDate: sp("20240101")},
 		{TripId: sp("T"), RouteId: sp("R"), StartTime: sp("10:00:00"), StartDate: sp("20240101")},
@@ -155,7 +156,7 @@ func init() {
 	register(&Check{
 		ID:    "C07",
 		Level: "model_checking",
-		Rule: "association messages (1 pair + extras, 2 pairs; thorough: 2 pairs + extras) in ALL n! entity orders (n<=5; 4 orders beyond) x all map rotations, plus the same with conflicting duplicates (invariants only); plus every 4-subset of 12 trip descriptors that differ in one identifier component each (direction, start time, start date, schedule relationship, route, id) in all 24 orders; " +
+		Rule: "association messages (1 pair + extras, 2 pairs; thorough: 2 pairs + extras) in ALL n! entity orders (n<=5; 4 orders beyond) x all map rotations, plus the same with conflicting duplicates (invariants only); plus every 4-subset of 13 trip descriptors that differ in one identifier component each (direction, start time, start date, schedule relationship, route, id) in all 24 orders; " +
 			"non-trivial = distinct messages with >= 2 entities; oracles = cross-execution relation (message up to order -> dump), order-independent reference, sortedness/uniqueness invariants",
 		Assumptions: []string{"the identifier order is the documented field order (id, route, direction, start time, start date, schedule relationship)"},
 		Scenarios: func(tier string) []*Scenario {
@@ -167,7 +168,8 @@ func init() {
 			}
 			if tier == "thorough" {
 				s = append(s, &Scenario{Name: "two-pairs+extras", Bound: -1, Run: c07Harness(2, true, false)},
-					&Scenario{Name: "two-pairs+conflicts", Bound: -1, Run: c07Harness(2, false, true)})
+					&Scenario{Name: "two-pairs+conflicts", Bound: -1, Run: c07Harness(2, false, true)},
+					&Scenario{Name: "three-pairs", Bound: -1, Run: c07Harness(3, false, false)})
 			}
 			return s
 		},
